@@ -412,6 +412,8 @@ def part_b(task):
             if r is None or r[0] != "ret":
                 if r and r[0] == "exc" and isinstance(r[1], HarnessError):
                     raise r[1]
+                if r and r[0] == "exc" and getattr(r[1], "harness", False):
+                    raise HarnessError(r[1].msg)
                 acc.violation("thread-failed", {"part": "b", "why": r[0] if r else None},
                               {"part": "b", "cfg": cfg, "schedule": list(prefix)}, observed=repr(r)[:200], expected="done")
         if s.deadlock:
@@ -725,6 +727,8 @@ def part_d(task):
             if r is None or r[0] != "ret":
                 if r and r[0] == "exc" and isinstance(r[1], HarnessError):
                     raise r[1]
+                if r and r[0] == "exc" and getattr(r[1], "harness", False):
+                    raise HarnessError(r[1].msg)
                 acc.violation("thread-failed", {"part": "d", "why": r[0] if r else None}, case, observed=repr(r)[:200], expected="done")
         if s.deadlock:
             acc.violation("deadlock", {"part": "d"}, case, observed=s.deadlock, expected="progress")
